@@ -1,5 +1,6 @@
 import Driver.Util
 import Verif.Gen.Currency
+import Verif.Model.Msgp
 /-! Model driver of suite c18 (`modeld currency`): evaluates the definitions GENERATED from currency.go
 (`Verif/Gen/Currency.lean`) on the op lines of go/harness/suite_c18.go, so the correspondence run also validates the
 translator against the compiled Go. Op language and output format: see suite_c18.go. -/
@@ -33,6 +34,8 @@ def out {α : Type} (show_ : α → String) : Res ErrKind α → String
 def ustr (b : BitVec 64) : String := toString b.toNat
 def istr (b : BitVec 64) : String := toString b.toInt
 def bstr (b : Bool) : String := if b then "true" else "false"
+
+def hexOrDash (b : List UInt8) : String := if b.isEmpty then "-" else hex b
 
 def dec? (c e : String) : Option Dec := do
   let c ← c.toInt?; let e ← e.toInt?; pure ⟨c, e⟩
@@ -68,6 +71,19 @@ def run (w : List String) : Option String :=
   | ["feq", x, y] => do let x ← f64? x; let y ← f64? y; pure ("ok " ++ bstr (F64.eq x y))
   | ["u2f", c] => do let c ← u64? c; pure ("ok " ++ fstr (F64.ofUInt64 c))
   | ["f2u", x] => do let x ← f64? x; pure ("ok " ++ ustr (F64.toUInt64 x))
+  -- msgp codec of Coin (currency_gen.go), hand-written model Verif/Model/Msgp.lean
+  | ["menc", c, pre] => do
+    let c ← u64? c; let pre ← unhex pre
+    pure ("ok " ++ hexOrDash (Verif.Msgp.marshalCoin pre c) ++ " " ++ toString Verif.Msgp.uint64Size)
+  | ["mdec", b] => do
+    let b ← unhex b
+    pure (match Verif.Msgp.unmarshalCoin b with
+      | .ok (c, rest) => "ok " ++ ustr c ++ " " ++ hexOrDash rest
+      | .err .short => "err short"
+      | .err (.belowZero v) => "err belowzero " ++ toString v
+      | .err (.badType t) => "err badtype " ++ t
+      | .err (.invalidPrefix l) => "err invalidprefix " ++ toString l.toNat
+      | .panic => "panic")
   | _ => none
 
 def step (s : Unit) (w : List String) : Unit × String := (s, (run w).getD "bad-op")
